@@ -14,15 +14,17 @@ Proof. unfold thr_1e10, fQ; cbn. lra. Qed.
 Lemma coplanar_false_nonzero d y1 y2 y3 : 0 <= y1 -> 0 <= y2 -> 0 <= y3 ->
   coplanar_test OpsR d y1 y2 y3 = false -> d <> 0.
 Proof.
-  intros _ _ _ H. unfold coplanar_test in H. cbn [fltb fabs OpsR] in H. apply Rltb_false in H.
-  pose proof thr_pos. intros ->. rewrite Rabs_R0 in H. lra.
+  intros H1 H2 H3 H. unfold coplanar_test in H. cbn [fleb fabs fmul OpsR] in H. apply Rleb_false in H.
+  pose proof thr_pos as Ht. intros ->. rewrite Rabs_R0 in H.
+  assert (0 <= y1 * y2 * y3) by (apply Rmult_le_pos; [apply Rmult_le_pos|]; assumption).
+  assert (0 <= thr_1e10 OpsR * (y1 * y2 * y3)) by (apply Rmult_le_pos; lra). lra.
 Qed.
 
 Lemma coplanar_cyclic d y1 y2 y3 : coplanar_test OpsR d y1 y2 y3 = coplanar_test OpsR d y2 y3 y1.
-Proof. reflexivity. Qed.
+Proof. unfold coplanar_test. cbn [fleb fabs fmul OpsR]. f_equal. ring. Qed.
 
 Lemma coplanar_swap d y1 y2 y3 : coplanar_test OpsR (- d) y1 y3 y2 = coplanar_test OpsR d y1 y2 y3.
-Proof. unfold coplanar_test. cbn [fltb fabs OpsR]. rewrite Rabs_Ropp. reflexivity. Qed.
+Proof. unfold coplanar_test. cbn [fleb fabs fmul OpsR]. rewrite Rabs_Ropp. f_equal. ring. Qed.
 
 Lemma norm_nonneg (v : V3) : 0 <= norm OpsR v.
 Proof. unfold norm. cbn [fsqrt OpsR]. apply sqrt_pos. Qed.
